@@ -30,7 +30,7 @@ func init() {
 		ID:        "C03",
 		Technique: "runtime monitor: conservation accounting of argv tokens against the intended-parse fold + subsequence monitor, on real Parse executions",
 		Rule: "case = random program (tree depth<=2, wrappers, per-command unknown modes) + intended-parse item list rendered to argv with unique payloads; " +
-			"distinct = distinct (modes, item-shape sequence) signatures; non-trivial = at least one token must end up in remaining and at least one must be consumed",
+			"distinct = distinct (modes, item-shape sequence) signatures; non-trivial = at least one token must end up in remaining and at least one must be consumed" + genDims,
 		Assumptions: []string{"argv is rendered only where the documented rules make the intended parse unambiguous (DESIGN appendix A)"},
 		Cases:       func(tier string) int { return tierN(tier, 12000, 5000000) },
 		Run: func(seed uint64, idx int, tier string) *fw.Result {
